@@ -12,7 +12,7 @@ import argparse, ast, concurrent.futures as cf, json, os, random, shutil, subpro
 
 MAP = {
     "demeter/uniswap/liquitidy_math.py": ["C07", "C06", "C09", "C08"],
-    "demeter/uniswap/helper.py": ["C06", "C07", "C09", "C03"],
+    "demeter/uniswap/helper.py": ["C06", "C07", "C09", "C02", "C08", "C03"],
     "demeter/uniswap/core.py": ["C08", "C07", "C09"],
     "demeter/uniswap/market.py": ["C09", "C07", "C08", "C04", "C03", "C01"],
     "demeter/aave/core.py": ["C11", "C13", "C12", "C10"],
